@@ -31,7 +31,14 @@ Base(ct) == <<
   G("GeometryCollection",ct,<<G("Point",ct,V(1,ct)), G("Point",ct,V(1,ct)), G("LineString",ct,<<V(1,ct),V(2,ct)>>), G("Point",ct,<<>>)>>),
   G("GeometryCollection",ct,<<G("GeometryCollection",ct,<<G("Point",ct,V(2,ct)), G("Point",ct,V(3,ct))>>), G("MultiPoint",ct,<<V(2,ct),V(3,ct)>>), G("GeometryCollection",ct,<<G("Point",ct,V(3,ct)), G("Point",ct,V(2,ct))>>)>>),
   G("GeometryCollection",ct,<<>>) >>
-BaseSeq == Base("XY") \o Base("XYZM")
+\* geometries whose only content is an empty member (dropping it leaves the plain empty geometry of the type)
+OnlyEmpty(ct) == << G("MultiPoint",ct,<< <<>> >>), G("MultiLineString",ct,<< <<>> >>), G("MultiPolygon",ct,<< <<>> >>),
+                    G("GeometryCollection",ct,<<G("Point",ct,<<>>)>>), G("GeometryCollection",ct,<<G("MultiPoint",ct,<< <<>> >>)>>),
+                    G("MultiPoint",ct,<< <<>>, <<>> >>) >>
+BaseSeq == Base("XY") \o Base("XYZM") \o OnlyEmpty("XY") \o OnlyEmpty("XYZ")
+\* g inside k nested GeometryCollections (next to a fixed point, so that the collection is not empty)
+RECURSIVE Wrap(_,_)
+Wrap(g,k) == IF k = 0 THEN g ELSE G("GeometryCollection", g.ct, <<Wrap(g,k-1), G("Point", g.ct, V(7,g.ct))>>)
 
 RECURSIVE PermsOf(_)
 PermsOf(S) == IF S = {} THEN {<<>>} ELSE UNION {{<<x>> \o p : p \in PermsOf(S \ {x})} : x \in S}
